@@ -776,3 +776,273 @@ Proof.
       * constructor; auto. intro Hin. apply in_map_iff in Hin. destruct Hin as [y [Ey Hy]]. apply IR in Hy.
         apply Hn1. rewrite <- Ey. apply in_fst. tauto.
 Qed.
+
+(* every path of either list falls in exactly one of the four classes *)
+Definition in_added (p : str) (d : diff) : Prop := In p (map fst (d_added d)).
+Definition in_removed (p : str) (d : diff) : Prop := In p (map fst (d_removed d)).
+Definition in_changed (p : str) (d : diff) : Prop := In p (map snd (d_changed d)).
+Definition unchanged (p : str) (l1 l2 : list dtest) : Prop := exists s, In (p, s) l1 /\ In (p, s) l2.
+Definition exactly_one (A B C D : Prop) : Prop :=
+  (A /\ ~ B /\ ~ C /\ ~ D) \/ (~ A /\ B /\ ~ C /\ ~ D) \/ (~ A /\ ~ B /\ C /\ ~ D) \/ (~ A /\ ~ B /\ ~ C /\ D).
+
+Lemma str_in_dec : forall (p : str) l, {In p l} + {~ In p l}.
+Proof. intros. apply in_dec. apply list_eq_dec. apply N.eq_dec. Qed.
+
+Lemma in_map_fst_ex : forall p (l : list dtest), In p (map fst l) -> exists s, In (p, s) l.
+Proof. intros p l H. apply in_map_iff in H. destruct H as [[q s] [E H]]. simpl in E. subst. eauto. Qed.
+
+Lemma diff_exactly_once : forall l1 l2 d, NoDup (map fst l1) -> NoDup (map fst l2) -> diff_spec l1 l2 d ->
+  forall p, In p (map fst l1) \/ In p (map fst l2) ->
+  exactly_one (in_added p d) (in_removed p d) (in_changed p d) (unchanged p l1 l2).
+Proof.
+  intros l1 l2 d N1 N2 [IA [IR [IC _]]] p Hp. unfold exactly_one, in_added, in_removed, in_changed, unchanged.
+  assert (NA1 : In p (map fst l1) -> ~ In p (map fst (d_added d))).
+  { intros H1 H. apply in_map_iff in H. destruct H as [x [E H]]. apply IA in H. subst p. tauto. }
+  assert (NR2 : In p (map fst l2) -> ~ In p (map fst (d_removed d))).
+  { intros H1 H. apply in_map_iff in H. destruct H as [x [E H]]. apply IR in H. subst p. tauto. }
+  assert (NA2 : ~ In p (map fst l2) -> ~ In p (map fst (d_added d))).
+  { intros H1 H. apply in_map_iff in H. destruct H as [x [E H]]. apply IA in H. subst p. apply H1. apply in_fst. tauto. }
+  assert (NR1 : ~ In p (map fst l1) -> ~ In p (map fst (d_removed d))).
+  { intros H1 H. apply in_map_iff in H. destruct H as [x [E H]]. apply IR in H. subst p. apply H1. apply in_fst. tauto. }
+  assert (NC : ~ In p (map fst l1) \/ ~ In p (map fst l2) -> ~ In p (map snd (d_changed d))).
+  { intros H1 H. apply in_map_iff in H. destruct H as [[[a b] q] [E H]]. simpl in E. subst q. apply IC in H.
+    destruct H as [Ha [Hb _]]. destruct H1 as [H1|H1]; apply H1.
+    - apply (in_fst (p, a)); auto.
+    - apply (in_fst (p, b)); auto. }
+  assert (NU : ~ In p (map fst l1) \/ ~ In p (map fst l2) -> ~ (exists s, In (p, s) l1 /\ In (p, s) l2)).
+  { intros H1 [s [Ha Hb]]. destruct H1 as [H1|H1]; apply H1.
+    - apply (in_fst (p, s)); auto.
+    - apply (in_fst (p, s)); auto. }
+  destruct (str_in_dec p (map fst l1)) as [H1|H1], (str_in_dec p (map fst l2)) as [H2|H2].
+  - destruct (in_map_fst_ex _ _ H1) as [s1 Hs1]. destruct (in_map_fst_ex _ _ H2) as [s2 Hs2].
+    destruct (status_eqb s1 s2) eqn:E.
+    + apply status_eqb_eq in E. subst s2. right. right. right. repeat split; auto; [| eauto].
+      intro H. apply in_map_iff in H. destruct H as [[[a b] q] [Eq H]]. simpl in Eq. subst q. apply IC in H.
+      destruct H as [Ha [Hb Hne]]. apply Hne.
+      rewrite (nodup_fst_unique l1 p a s1 N1 Ha Hs1). rewrite (nodup_fst_unique l2 p b s1 N2 Hb Hs2). reflexivity.
+    + assert (Hne : s1 <> s2) by (intro Eq; subst; rewrite status_eqb_refl in E; discriminate).
+      right. right. left. repeat split; auto.
+      * apply in_map_iff. exists (s1, s2, p). split; auto. apply IC. auto.
+      * intros [s [Ha Hb]]. apply Hne.
+        rewrite (nodup_fst_unique l1 p s1 s N1 Hs1 Ha). rewrite (nodup_fst_unique l2 p s2 s N2 Hs2 Hb). reflexivity.
+  - destruct (in_map_fst_ex _ _ H1) as [s1 Hs1]. right. left. repeat split; auto.
+    apply in_map_iff. exists (p, s1). split; auto. apply IR. auto.
+  - destruct (in_map_fst_ex _ _ H2) as [s2 Hs2]. left. repeat split; auto.
+    apply in_map_iff. exists (p, s2). split; auto. apply IA. auto.
+  - tauto.
+Qed.
+
+(* report level *)
+Definition unique_test_paths (r : report) : Prop := NoDup (map fst (tests_with_path r)).
+
+Lemma nodup_map_fst_filter : forall {A B} (h : A * B -> bool) (l : list (A * B)),
+  NoDup (map fst l) -> NoDup (map fst (filter h l)).
+Proof.
+  induction l as [|x l IH]; simpl; intro N; auto. inversion N as [|a b Hn Hd]; subst.
+  destruct (h x); simpl; auto. constructor; auto.
+  intro Hin. apply Hn. apply in_map_iff in Hin. destruct Hin as [y [Ey Hy]]. apply filter_In in Hy.
+  apply in_map_iff. exists y. tauto.
+Qed.
+
+Lemma dtests_nodup : forall f r, unique_test_paths r -> NoDup (map fst (dtests f r)).
+Proof.
+  intros f r N. unfold dtests. rewrite map_map. simpl.
+  apply (nodup_map_fst_filter (fun pt => f (t_result (snd pt)))). exact N.
+Qed.
+
+Fixpoint nodupb (l : list str) : bool :=
+  match l with [] => true | x :: l' => negb (existsb (str_eqb x) l') && nodupb l' end.
+Lemma nodupb_NoDup : forall l, nodupb l = true -> NoDup l.
+Proof.
+  induction l as [|x l IH]; simpl; intro H; constructor.
+  - apply andb_true_iff in H. destruct H as [H _]. apply negb_true_iff in H. intro Hin.
+    assert (existsb (str_eqb x) l = true) by (apply existsb_exists; exists x; split; auto; apply str_eqb_refl). congruence.
+  - apply IH. apply andb_true_iff in H. tauto.
+Qed.
+
+(* ================================================================ witnesses ================ *)
+Definition w_name (c : N) : str := [c].
+Definition w_meta (c : N) : meta := mkMeta (w_name c) (w_name c) [] [] [].
+(* an unfinished run: suite "s" with one test "t" in progress that already logged an error *)
+Definition w_open_result : result :=
+  mkResult (Some 1002%Z) None None None [mkStep (w_name 97) (Some 1003%Z) None [LLog s_error (w_name 98) 1004%Z]].
+Definition w_unfinished : report :=
+  mkReport [] [] (Some 1000%Z) None None 1%Z None None
+    [SuiteResult (w_meta 115) (Some 1001%Z) None None None [mkTest (w_meta 116) w_open_result] []].
+
+(* a finished run with the four statuses, a failure made of an error log and one made of a failed check *)
+Definition w_res (s e : Z) (st : str) (logs : list steplog) : result :=
+  mkResult (Some s) (Some e) (Some st) None
+           (match logs with [] => [] | _ => [mkStep (w_name 97) (Some s) (Some e) logs] end).
+Definition w_finished : report :=
+  mkReport [] [] (Some 1000%Z) (Some 9000%Z) None 1%Z None None
+    [SuiteResult (w_meta 115) (Some 1001%Z) (Some 8000%Z) (Some (w_res 1001 1002 s_passed [LLog s_info (w_name 98) 1001%Z])) None
+       [mkTest (w_meta 97) (w_res 1100 1200 s_passed [LCheck (w_name 99) true None 1150%Z]);
+        mkTest (w_meta 98) (w_res 1300 1400 s_failed [LLog s_error (w_name 99) 1350%Z]);
+        mkTest (w_meta 99) (w_res 1500 1600 s_failed [LCheck (w_name 99) false (Some (w_name 100)) 1550%Z]);
+        mkTest (w_meta 100) (w_res 1700 1700 s_skipped []);
+        mkTest (w_meta 101) (w_res 1800 1800 s_disabled [])]
+       [SuiteResult (w_meta 117) (Some 2000%Z) (Some 3000%Z) None None
+          [mkTest (w_meta 97) (w_res 2100 2200 s_passed [])] []];
+     SuiteResult (w_meta 118) (Some 4000%Z) (Some 5000%Z) None None [] []].
+(* the same run where test s.b now passes, s.d was removed and s.z added *)
+Definition w_finished2 : report :=
+  mkReport [] [] (Some 1000%Z) (Some 9000%Z) None 1%Z None None
+    [SuiteResult (w_meta 115) (Some 1001%Z) (Some 8000%Z) None None
+       [mkTest (w_meta 97) (w_res 1100 1200 s_passed []);
+        mkTest (w_meta 98) (w_res 1300 1400 s_passed []);
+        mkTest (w_meta 99) (w_res 1500 1600 s_failed [LCheck (w_name 99) false None 1550%Z]);
+        mkTest (w_meta 122) (w_res 1700 1700 s_skipped []);
+        mkTest (w_meta 101) (w_res 1800 1800 s_disabled [])]
+       [SuiteResult (w_meta 117) (Some 2000%Z) (Some 3000%Z) None None
+          [mkTest (w_meta 97) (w_res 2100 2200 s_passed [])] []]].
+Definition f_enabled_only : rfilter := mkFilter [] true false.
+
+Lemma status_is_true : forall st x, status_is st x = true <-> r_status x = Some st.
+Proof.
+  intros st x. unfold status_is. destruct (r_status x) as [y|]; split; intro H; try discriminate.
+  - apply str_eqb_eq in H. subst; auto.
+  - inversion H. apply str_eqb_refl.
+Qed.
+
+(* the OK / KO / -- label of the console lines *)
+Definition status_in_enum (o : option str) : Prop :=
+  o = None \/ o = Some s_passed \/ o = Some s_failed \/ o = Some s_skipped \/ o = Some s_disabled.
+Lemma label_spec : forall o, status_in_enum o ->
+  (status_label o = LOK <-> o = Some s_passed) /\ (status_label o = LKO <-> o = Some s_failed).
+Proof.
+  intros o [H|[H|[H|[H|H]]]]; subst; vm_compute; split; split; intro H; try discriminate; auto.
+Qed.
+
+(* ================================================================ the statements of Props/C20.v ================ *)
+Lemma thm_junit_children : forall r j, junit_report r = VOk j ->
+  flat_map js_cases (jr_suites j) = map (fun t => mkCase (m_name (t_meta t)) (junit_children (t_result t))) (all_tests r) /\
+  forall t, In t (all_tests r) ->
+    has_skipped_child (junit_children (t_result t)) = status_is s_skipped (t_result t) /\
+    has_fail_child (junit_children (t_result t)) =
+      negb (status_is s_skipped (t_result t)) && negb (forallb step_successful (r_steps (t_result t))).
+Proof. intros r j H. split; [apply junit_cases_all; exact H | intros t _; apply junit_children_spec]. Qed.
+
+Lemma thm_junit_iff_partial : forall r j, junit_report r = VOk j ->
+  forall t, In t (all_tests r) -> verdict_sound (t_result t) ->
+    (has_fail_child (junit_children (t_result t)) = true <-> r_status (t_result t) = Some s_failed) /\
+    (has_skipped_child (junit_children (t_result t)) = true <-> r_status (t_result t) = Some s_skipped).
+Proof.
+  intros r j _ t _ Hs. destruct (junit_iff_sound _ Hs) as [H1 H2]. rewrite H1, H2. split; apply status_is_true.
+Qed.
+
+Lemma thm_junit_iff_refuted : exists r j t,
+  junit_report r = VOk j /\ In t (all_tests r) /\ r_status (t_result t) = None /\
+  In (mkCase (m_name (t_meta t)) [JError]) (flat_map js_cases (jr_suites j)) /\
+  has_fail_child (junit_children (t_result t)) = true /\
+  jr_failures j = 0 /\ map js_failures (jr_suites j) = [0].
+Proof.
+  exists w_unfinished. eexists. exists (mkTest (w_meta 116) w_open_result).
+  split; [vm_compute; reflexivity|]. vm_compute. intuition.
+Qed.
+
+Lemma thm_junit_counters : forall r j, junit_report r = VOk j ->
+  Forall2 (fun ps js =>
+             js_name js = path_str (fst ps) /\
+             js_tests js = length (s_tests_of (snd ps)) /\
+             js_failures js = count_in s_failed (s_tests_of (snd ps)) /\
+             js_skipped js = count_in s_skipped (s_tests_of (snd ps)))
+          (junit_shown r) (jr_suites j) /\
+  list_sum (map js_tests (jr_suites j)) = length (all_tests r) /\
+  list_sum (map js_failures (jr_suites j)) = count_status s_failed r /\
+  list_sum (map js_skipped (jr_suites j)) = count_status s_skipped r /\
+  jr_failures j = count_status s_failed r /\ jr_tests j = count_status s_passed r.
+Proof.
+  intros r j H. destruct (junit_structure r j H) as [S [T F]]. destruct (junit_counter_sums r j H) as [A [B C]].
+  repeat split; auto. clear -S. induction S as [|ps js l l' Hs _ IH]; constructor; auto.
+  unfold jsuite_spec in Hs. tauto.
+Qed.
+
+Lemma thm_junit_counters_children_partial : forall r j, junit_report r = VOk j ->
+  Forall (fun t => verdict_sound (t_result t)) (all_tests r) ->
+  Forall (fun js => js_failures js = length (filter (fun c => has_fail_child (jc_children c)) (js_cases js)) /\
+                    js_skipped js = length (filter (fun c => has_skipped_child (jc_children c)) (js_cases js)))
+         (jr_suites j).
+Proof.
+  intros r j H Hs. destruct (junit_structure r j H) as [S _]. rewrite <- shown_tests in Hs.
+  induction S as [|ps js l l' Hj _ IH]; constructor.
+  - apply (junit_counter_children ps js Hj). simpl in Hs. apply Forall_app in Hs. tauto.
+  - apply IH. simpl in Hs. apply Forall_app in Hs. tauto.
+Qed.
+
+Lemma thm_stats_counts : forall r s, from_report r = VOk s ->
+  st_tests_nb s = length (all_tests r) /\
+  n_passed (st_by s) = count_status s_passed r /\ n_failed (st_by s) = count_status s_failed r /\
+  n_skipped (st_by s) = count_status s_skipped r /\ n_disabled (st_by s) = count_status s_disabled r /\
+  enabled_nb (st_by s) = count_status s_passed r + count_status s_failed r + count_status s_skipped r.
+Proof.
+  intros r s H. destruct (stats_counts r s H) as [[A [B [C [D E]]]] _]. unfold enabled_nb, count_status.
+  rewrite A, B, C, D, E. repeat split; reflexivity.
+Qed.
+
+Lemma thm_stats_total : forall r,
+  (statuses_known r -> exists s, from_report r = VOk s) /\
+  (forall e, from_report r = VErr e -> e = KeyError /\ ~ statuses_known r).
+Proof. intro r. split; [apply stats_total | apply stats_err]. Qed.
+
+Lemma thm_message_vars_partial : forall r, finished r -> statuses_known r -> exists m, message_ints r = VOk m.
+Proof. intros r [Hs [He _]] Hk. apply message_vars_total; auto. Qed.
+
+Lemma thm_message_vars_refuted : exists r, statuses_known r /\ message_ints r = VErr TypeError.
+Proof. exists w_unfinished. split; vm_compute; reflexivity. Qed.
+
+Lemma thm_console_counts : forall truthy f r lines s,
+  console_short truthy f r = VOk (COut lines s) ->
+  let sel := filter (fun t => f (t_result t)) (all_tests r) in
+  let shown := if truthy then sel else all_tests r in
+  concat lines = map label_of sel /\
+  sm_tests (summary_of s) = length shown /\
+  sm_passed (summary_of s) = count_in s_passed shown /\
+  sm_failed (summary_of s) = count_in s_failed shown /\
+  sm_skipped (summary_of s) = nz (count_in s_skipped shown) /\
+  sm_disabled (summary_of s) = nz (count_in s_disabled shown).
+Proof.
+  intros truthy f r lines s H sel shown. destruct (console_counts truthy f r lines s H) as [L [A [B [C [D E]]]]].
+  unfold summary_of. simpl. fold sel in A, B, C, D, E. fold shown in A, B, C, D, E.
+  rewrite A, B, C, D, E. repeat split; auto.
+Qed.
+
+Lemma thm_console_labels : forall t, status_in_enum (r_status (t_result t)) ->
+  (label_of t = LOK <-> r_status (t_result t) = Some s_passed) /\ (label_of t = LKO <-> r_status (t_result t) = Some s_failed).
+Proof. intros t H. apply label_spec. exact H. Qed.
+
+Lemma thm_console_counts_refuted : exists r, statuses_known r /\
+  rf_truthy f_enabled_only = true /\ console_short true (rf_apply f_enabled_only) r = VErr TypeError /\
+  exists out, console_short false (fun _ => true) r = VOk out.
+Proof. exists w_unfinished. repeat split; try (vm_compute; reflexivity). eexists. vm_compute. reflexivity. Qed.
+
+Lemma thm_diff_partition : forall f r1 r2, unique_test_paths r1 -> unique_test_paths r2 ->
+  let l1 := dtests f r1 in let l2 := dtests f r2 in let d := diff_reports f r1 r2 in
+  (forall x, In x (d_added d) <-> In x l2 /\ ~ In (fst x) (map fst l1)) /\
+  (forall x, In x (d_removed d) <-> In x l1 /\ ~ In (fst x) (map fst l2)) /\
+  (forall s1 s2 p, In (s1, s2, p) (d_changed d) <-> In (p, s1) l1 /\ In (p, s2) l2 /\ s1 <> s2) /\
+  NoDup (map fst (d_added d)) /\ NoDup (map fst (d_removed d)) /\ NoDup (map snd (d_changed d)) /\
+  forall p, In p (map fst l1) \/ In p (map fst l2) ->
+    exactly_one (in_added p d) (in_removed p d) (in_changed p d) (unchanged p l1 l2).
+Proof.
+  intros f r1 r2 U1 U2 l1 l2 d.
+  assert (N1 := dtests_nodup f r1 U1). assert (N2 := dtests_nodup f r2 U2).
+  assert (S := diff_partition_lists _ _ N1 N2). fold l1 l2 in N1, N2, S.
+  change (compute_diff l1 l2) with d in S.
+  destruct S as [A [B [C [D [E F]]]]]. repeat (split; [assumption|]).
+  apply (diff_exactly_once l1 l2 d N1 N2). exact (conj A (conj B (conj C (conj D (conj E F))))).
+Qed.
+
+Lemma thm_diff_partition_needs_unique_paths : exists l1 l2 : list dtest,
+  (forall x, In x l1 <-> In x l2) /\ length (d_changed (compute_diff l1 l2)) = 2 /\
+  ~ NoDup (map snd (d_changed (compute_diff l1 l2))).
+Proof.
+  exists [([112%N], Some s_passed); ([112%N], Some s_failed)], [([112%N], Some s_failed); ([112%N], Some s_passed)].
+  split; [|split].
+  - intro x. simpl. tauto.
+  - vm_compute. reflexivity.
+  - vm_compute. intro N. inversion N as [|a b Hn _]. apply Hn. simpl. auto.
+Qed.
+
+Lemma thm_diff_self_empty : forall f r, diff_reports f r r = mkDiff [] [] [] /\ diff_is_empty (diff_reports f r r) = true.
+Proof. intros f r. unfold diff_reports. rewrite diff_self_empty. split; reflexivity. Qed.
